@@ -363,7 +363,24 @@ func workC18(req *Request, set []byte) {
 						unres = "unresolved"
 					}
 				}
-				o.Sub = []string{dup, unres}
+				own := "own-unique"
+				seenOwn := map[string]bool{}
+				for _, p := range obj.Properties {
+					if seenOwn[p.JSONName] {
+						own = "own-dup"
+					}
+					seenOwn[p.JSONName] = true
+				}
+				o.Sub = []string{dup, unres, own}
+				var pt []string
+				for _, p := range props {
+					var nums []string
+					for _, n := range p.ProtoField {
+						nums = append(nums, fmt.Sprintf("%d", n))
+					}
+					pt = append(pt, fmt.Sprintf("(%s, [%s])", descgen.Str(p.JSONName), strings.Join(nums, "; ")))
+				}
+				o.Term = "[" + strings.Join(pt, "; ") + "]"
 			})
 		}
 		step(req, "newroot|"+full, func(o *Obs) {
